@@ -22,6 +22,7 @@ open Lean
 def dispatch (j : Json) : Json :=
   match Driver.str j "op" with
   | "pending" => Driver.handlePending j
+  | "pending.to" => Driver.handlePendingTo j
   | "exec" => Driver.handleExec j
   | "set.run" => Driver.handleSetRun j
   | "hash.validate" => Driver.handleHashValidate j
